@@ -224,9 +224,16 @@ structure Final where
   out : List Nat
   deriving Repr, DecidableEq, Inhabited
 
+/-! exit statuses, as written in `main.rs` (source-anchored: `checks/C15.json` → `constants`) -/
+abbrev exitMatched : Nat := 0
+abbrev exitErrored : Nat := 2
+abbrev exitNoMatch : Nat := 1
+abbrev exitBrokenPipe : Nat := 0
+abbrev exitFatal : Nat := 2
+
 /-- `run`'s last expression. -/
 def exitCode (matched quiet errored : Bool) : Nat :=
-  if matched && (quiet || !errored) then 0 else if errored then 2 else 1
+  if matched && (quiet || !errored) then exitMatched else if errored then exitErrored else exitNoMatch
 
 /-- `run`: dispatch on the mode and thread count. -/
 def run (c : Cfg) (p : Parse) (items : List Item) : St × Option RunRes :=
@@ -248,8 +255,8 @@ def main (c : Cfg) (p : Parse) (items : List Item) : Final :=
   match run c p items with
   | (st, none) => ⟨0, st.diags, st.out⟩
   | (st, some (.ok matched)) => ⟨exitCode matched c.quiet st.errored, st.diags, st.out⟩
-  | (st, some .errPipe) => ⟨0, st.diags, st.out⟩
-  | (st, some .errOther) => ⟨2, st.diags ++ [.fatal], st.out⟩
+  | (st, some .errPipe) => ⟨exitBrokenPipe, st.diags, st.out⟩
+  | (st, some .errOther) => ⟨exitFatal, st.diags ++ [.fatal], st.out⟩
 
 /-! ### `--stats` (also implied by `--json`): `stats += search_result.stats()` and `print_stats`
 
